@@ -57,9 +57,22 @@ extern ssize_t mpt_encode_string(MPT_STRUCT(encode_state) *info, const struct io
 			return MPT_ERROR(MissingBuffer);
 		}
 		else {
+			const uint8_t *delim;
+			size_t back;
+			
 			base += off;
-			memcpy(base-sep, base, sep);
-			off += sep;
+			delim = base - sep;
+			
+			/* separator must not begin in end of message */
+			back = (info->_ctx < sep) ? info->_ctx : sep - 1;
+			while (back) {
+				if (!memcmp(delim - back--, delim, sep)) {
+					return MPT_ERROR(BadEncoding);
+				}
+			}
+			/* keep separator for next message */
+			memcpy(base, delim, sep);
+			info->_ctx = 0;
 		}
 		info->done = off;
 		
